@@ -1434,7 +1434,9 @@ def run(ctx):
         gate_cases(g)
         history_cases(g, 12 if quick else 400, 40 if quick else 45)
         sender_mode_cases_c16b(g, 8 if quick else 250, 16 if quick else 22)
+        gap0_c16c = len(g.lines)          # the request lines in between do not belong to a stand-alone history
         download_full_cases_c16c(g)
+        g.gap_c16c = (gap0_c16c, len(g.lines))
         avatar_fault_cases_c16c(g, 6 if quick else 200, 24 if quick else 32)
         # USER 1 must come before the FA lines (they authenticate as user 1)
         lines = ["USER 1"] + pure + g.lines[1:]
@@ -1477,6 +1479,9 @@ def run(ctx):
         """replay of a stateful line = all stateful lines up to it"""
         k0 = lines[i].split(None, 1)[0]
         s0 = max([j for j in starts_c16b if j <= i], default=None)
+        gap = getattr(g, "gap_c16c", None)
+        if s0 is not None and gap is not None and len(pure) + gap[0] <= i < len(pure) + gap[1]:
+            s0 = None
         if s0 is not None:
             # a sender-mode history: its own lines, up to the dump that follows the failing line
             e = i
